@@ -407,8 +407,8 @@ fn direct(case: &Value, obs: &mut Obs) -> Res {
 pub fn prop() -> Prop {
     Prop {
         id: ID,
-        rule: "length(): exhaustive box over every kind of argument x n; count()/value(): random argument queries selecting 0, 1, many nodes, results used in comparisons, negations, conjunctions; \
-               match()/search(): generated pattern ASTs (literals incl. non-ASCII, ., classes, negated classes, ranges, groups, top-level and nested alternation, ? * + {m,n}, explicit anchors, \\p{..}) \
+        rule: "length(): exhaustive box over every kind of argument x n; count()/value(): random argument queries selecting 0, 1, many nodes, results used in comparisons (against every spelling of the number), negations, conjunctions; \
+               match()/search(): generated pattern ASTs (literals incl. non-ASCII, ., classes, negated classes, ranges, groups, top-level and nested alternation, ? * + {m,n}, explicit anchors, \\p{..}, the metacharacters as escaped literals and bare class members) \
                with subjects built from the pattern (exact, prefixed, suffixed, infixed, mutated, unrelated, non-string), patterns delivered as literals and through document nodes; invalid and non-string patterns. \
                The oracle is the harness' own backtracking matcher over the pattern AST. Non-trivial: every generated case (each has a function call whose argument or pattern is document-dependent). Distinct by (query text, document).",
         assumptions: vec![
